@@ -34,8 +34,21 @@ def _seq_worker(seq):
         finally:
             os._exit(0)
     os.close(w)
+    import select, signal, time as _time
+    deadline = _time.time() + core.HANG_T * max(1, len(seq))
+    chunks = []
     with os.fdopen(r, "rb") as f:
-        data = f.read()
+        while True:
+            left = deadline - _time.time()
+            if left <= 0 or not select.select([f], [], [], left)[0]:
+                os.kill(pid, signal.SIGKILL)
+                os.waitpid(pid, 0)
+                return {core._HANG: "timeout"}
+            b = os.read(f.fileno(), 1 << 16)
+            if not b:
+                break
+            chunks.append(b)
+    data = b"".join(chunks)
     os.waitpid(pid, 0)
     if not data:
         raise core.Machinery("history %s: the forked interpreter died without an answer" % (seq,))
@@ -66,6 +79,9 @@ def run(ck):
     from .. import drive  # noqa
     with mp.get_context("fork").Pool(16) as pool:
         evs = pool.map(_seq_worker, seqs, chunksize=8)
+    for seq, ev in zip(seqs, evs):
+        if core._is_hang(ev):
+            raise core.HangFound("session.run_seq", {"calls": seq}, int(core.HANG_T * max(1, len(seq))))
     traces = []
     for seq, ev in zip(seqs, evs):
         for e in ev:
